@@ -36,7 +36,7 @@ def plan(tier, seed):
                mutants=[{'name': 'no_gt_escape', 'cfg': {'site': 'text', 'kind': 'str', 'k': 1}},
                         {'name': 'no_quote_escape', 'cfg': {'site': 'attr_sq', 'kind': 'str', 'k': 1}},
                         {'name': 'gate_narrow', 'cfg': {'site': 'content', 'kind': 'str', 'k': 1}},
-                        {'name': 'digest_without_class', 'cfg': {'site': 'text', 'kind': 'str', 'k': 1, 'shared_cache': True}}])
+                        {'name': 'digest_ignores_template_kind', 'cfg': {'site': 'text', 'kind': 'str', 'k': 1, 'shared_cache': True}}])
     return dict(
         level='model_checking',
         functions=['chameleon.compiler:emit_func_convert_and_escape', 'chameleon.compiler:emit_func_convert',
